@@ -1065,6 +1065,17 @@ def install(it):
     dtm.globals["datetime"] = Opaque("datetime.datetime")
     it.lib["warnings"].globals["warn"] = Builtin("warn", lambda *a, **k: None)
     it.lib["os"].globals["path"] = it.lib["os.path"]
+    gl = ModuleVal("glob", "lib")
+    it.lib["glob"] = gl
+
+    def glob_glob(pattern, **kw):
+        # a name without wildcard characters matches itself (the harness' files exist); patterns are outside the model
+        if isinstance(pattern, str) and not any(c in pattern for c in "*?["):
+            return [pattern]
+        raise Unsupported("glob.glob(%r)" % (pattern,))
+    gl.globals["glob"] = Builtin("glob.glob", glob_glob)
+    gl.globals["has_magic"] = Builtin("glob.has_magic", lambda s_: isinstance(s_, str) and any(c in s_ for c in "*?["))
+    gl.globals["escape"] = Builtin("glob.escape", lambda s_: s_)
     cp = ModuleVal("copy", "lib")
     it.lib["copy"] = cp
 
